@@ -127,6 +127,9 @@ var c09Programs = []c09Program{
 	{"shared-local-importer", `import dirlib; dirlib.triple(n) + dirlib.base`,
 		func(a int) map[string]any { return map[string]any{"n": a} },
 		func(a int) string { return c09Itoa(3*a + 7) }},
+	{"bytes", `b := byte(65); bs := byte_slice([1, 2, 3]); int(b) + int(bs[1]) + len(string(bs)) + n`,
+		func(a int) map[string]any { return map[string]any{"n": a} },
+		func(a int) string { return c09Itoa(65 + 2 + 3 + a) }},
 	{"plain", `l := [n, 2, 3].map(func(x) { return x * 2 }); l[0] + l[2] + len(sorted(l))`,
 		func(a int) map[string]any { return map[string]any{"n": a} },
 		func(a int) string { return c09Itoa(2*a + 6 + 3) }},
@@ -207,8 +210,11 @@ func HarnessC09ConcurrentEvaluations() {
 func HarnessC09SharedCodeAndClones() {
 	verifrt.SchedBounds(1, 3)
 	a, b := int(verifrt.Int16()), int(verifrt.Int16())
-	src := `func f(x) { return x * 2 + n }; f(n)`
+	src := `func f(x) { return x * 2 + n }
+func imp(x) { import lib; return lib.add(x, 1) }
+f(n)`
 	g0, names := c09Globals(map[string]any{"n": a})
+	shared := c09SharedImporter()
 	g1, _ := c09Globals(map[string]any{"n": b})
 	code, err := c09Compile(src, names)
 	verifrt.Assert(err == nil, "program-compiles")
@@ -227,10 +233,12 @@ func HarnessC09SharedCodeAndClones() {
 	verifrt.Assert(r1.err == "" && r1.text == c09Itoa(3*b), "shared-code-second-result")
 
 	// clones of one VM
-	machine := New(code, WithGlobals(g0))
+	machine := New(code, WithGlobals(g0), WithImporter(shared))
 	if err := machine.Run(context.Background()); err != nil {
 		return
 	}
+	impObj, ierr := machine.Get("imp")
+	impFn, isImp := impObj.(*object.Function)
 	fobj, gerr := machine.Get("f")
 	fn, isFn := fobj.(*object.Function)
 	if gerr != nil || !isFn {
@@ -258,4 +266,30 @@ func HarnessC09SharedCodeAndClones() {
 	v1, ok1 := asInt(o1)
 	verifrt.Assert(ce0 == nil && ok0 && v0 == int64(2+a), "first-clone-result")
 	verifrt.Assert(ce1 == nil && ok1 && v1 == int64(4+a), "second-clone-result")
+	// two more clones import a module (not imported before) at the same time
+	if ierr != nil || !isImp {
+		return
+	}
+	c2, e2 := machine.Clone()
+	c3, e3 := machine.Clone()
+	if e2 != nil || e3 != nil {
+		return
+	}
+	var o2, o3 object.Object
+	var ce2, ce3 error
+	wg.Add(2)
+	go func() {
+		defer wg.Done()
+		o2, ce2 = c2.Call(context.Background(), impFn, []object.Object{object.NewInt(10)})
+	}()
+	go func() {
+		defer wg.Done()
+		o3, ce3 = c3.Call(context.Background(), impFn, []object.Object{object.NewInt(20)})
+	}()
+	wg.Wait()
+	verifrt.Reach("clone-imports-done")
+	v2, ok2 := asInt(o2)
+	v3, ok3 := asInt(o3)
+	verifrt.Assert(ce2 == nil && ok2 && v2 == 11, "first-importing-clone-result")
+	verifrt.Assert(ce3 == nil && ok3 && v3 == 21, "second-importing-clone-result")
 }
